@@ -276,22 +276,25 @@ func compareStrong(got *implOut, ref *reflog.Result, v *view) []mismatch {
 	add := func(key, f string, a ...any) { ms = append(ms, mismatch{key, fmt.Sprintf(f, a...)}) }
 
 	// where does each reference record live
-	where := func(off int64) (r *reflog.Record, u *reflog.Unit, aborted bool) {
-		var ab []bool
-		if v.rc {
-			ab = reflog.AbortedUnits(ref.Units, v.list)
-		}
+	find := func(off int64) (*reflog.Record, *reflog.Unit, int) {
 		for i := range ref.Units {
 			for j := range ref.Units[i].Records {
 				if ref.Units[i].Records[j].Offset == off {
-					return &ref.Units[i].Records[j], &ref.Units[i], ab != nil && ab[i]
+					return &ref.Units[i].Records[j], &ref.Units[i], i
 				}
 			}
 		}
-		return nil, nil, false
+		return nil, nil, -1
+	}
+	where := func(off int64) (r *reflog.Record, u *reflog.Unit, aborted bool) {
+		r, u, i := find(off)
+		if r != nil && v.rc {
+			aborted = reflog.AbortedUnits(ref.Units, v.list)[i]
+		}
+		return r, u, aborted
 	}
 	wrapperOf := func(r *reflog.Record) bool {
-		_, u, _ := where(r.Offset)
+		_, u, _ := find(r.Offset)
 		return u != nil && u.Wrapper
 	}
 
@@ -551,13 +554,18 @@ func report(ms []mismatch, sweep string, resp string, oracle string, in []byte, 
 // ------------------------------------------------------------------ sweeps
 
 type worker struct {
-	dec      kgo.Decompressor
-	evals    int64
-	distinct map[uint64]struct{}
-	buf      []byte
+	skippedZstd int64
+	dec         kgo.Decompressor
+	evals       int64
+	distinct    map[uint64]struct{}
+	buf         []byte
 }
 
 func (w *worker) flush(r *ev.Run) {
+	if w.skippedZstd > 0 {
+		r.Add("substitutions_skipped_zstd_frame_header_crc_off", w.skippedZstd)
+		w.skippedZstd = 0
+	}
 	r.Evals(w.evals)
 	w.evals = 0
 	for h := range w.distinct {
@@ -666,8 +674,8 @@ func exploreResponse(w *worker, sweep string, resp *response, fullCross bool) {
 						if !all && !l.base {
 							continue
 						}
-						if !all && !rc && li != 0 {
-							continue
+						if !rc && !l.base && !keyCut[cut] {
+							continue // read_uncommitted ignores the list: all lists only at the key cuts
 						}
 						v := view{R: rv.R, rc: rc, keep: keep, list: l.l}
 						got := runImpl(in, &v, l.kl, w.dec)
@@ -731,6 +739,23 @@ func exploreAppended(w *worker, resp *response, cut int, maxLen int) {
 
 var subst = []byte{0x00, 0x01, 0x7f, 0x80, 0xff}
 
+// zstdHeader reports whether pos lies in the first 14 bytes of a zstd-compressed
+// records section (magic, frame header descriptor, window descriptor, frame
+// content size). With CRC validation disabled a corrupted zstd frame header
+// makes the decoder allocate up to the client's 2 GiB decompression limit -
+// seconds and gigabytes per input, not a panic and not part of this property -
+// so those (position, CRC-off) combinations are skipped and counted.
+func zstdHeader(resp *response, pos int) bool {
+	start := 0
+	for i, k := range resp.kinds {
+		if k.codec == "zstd" && pos >= start+61 && pos < start+61+14 {
+			return true
+		}
+		start = resp.ends[i]
+	}
+	return false
+}
+
 // exploreSubstituted: every single-byte substitution at every position; weak
 // oracle; CRC validation on and off.
 func exploreSubstituted(w *worker, resp *response, views []view) {
@@ -747,9 +772,17 @@ func exploreSubstituted(w *worker, resp *response, views []view) {
 			mut := fmt.Sprintf("byte %d: %02x -> %02x", pos, resp.data[pos], s)
 			for vi := range views {
 				v := &views[vi]
+				if v.disableCRC && zstdHeader(resp, pos) {
+					w.skippedZstd++
+					continue
+				}
 				in := append([]byte(nil), resp.data...) // fresh: returned records alias the input
 				in[pos] = s
+				t0 := time.Now()
 				got := runImpl(in, v, kls[vi], w.dec)
+				if d := time.Since(t0); d > 20*time.Millisecond && os.Getenv("C06_DEBUG") != "" {
+					fmt.Fprintf(os.Stderr, "slow %v %s %s crcoff=%v err=%v\n", d, resp.name, mut, v.disableCRC, got.err)
+				}
 				w.evals++
 				if ms := compareWeak(&got, v); len(ms) > 0 {
 					report(ms, "substituted-byte", resp.name, "weak", in, mut, v, &got, nil)
@@ -800,6 +833,10 @@ func substViews(resp *response, all bool) []view {
 type job func(w *worker)
 
 func runJobs(r *ev.Run, name string, jobs []job, deadline time.Time) {
+	if sel := os.Getenv("C06_SWEEPS"); sel != "" && !strings.Contains(sel, name[5:6]) {
+		r.NotExhaustive(name + ": deselected by C06_SWEEPS (debugging)")
+		return
+	}
 	start := time.Now()
 	var next atomic.Int64
 	var skipped atomic.Int64
@@ -837,7 +874,7 @@ func main() {
 	}
 	r := ev.New("C06", "exploration")
 	thorough := ev.Thorough()
-	deadline := ev.Deadline(80*time.Second, 18*time.Minute)
+	deadline := ev.Deadline(150*time.Second, 19*time.Minute)
 
 	cat := buildCatalog()
 	S, M, M0, Full := pick(cat, setS), pick(cat, setM), pick(cat, setM0), pick(cat, setFull)
@@ -910,7 +947,13 @@ func main() {
 	jobs = nil
 	for _, k := range S {
 		resp := mkResponse(5, 0, k)
-		jobs = append(jobs, func(w *worker) { exploreSubstituted(w, resp, substViews(resp, true)) })
+		jobs = append(jobs, func(w *worker) {
+			t0 := time.Now()
+			exploreSubstituted(w, resp, substViews(resp, true))
+			if os.Getenv("C06_DEBUG") != "" {
+				fmt.Fprintf(os.Stderr, "subst %-60s %6.2fs\n", resp.name, time.Since(t0).Seconds())
+			}
+		})
 	}
 	if thorough {
 		for _, a := range M0 {
@@ -927,7 +970,7 @@ func main() {
 	for _, k := range S {
 		resp := mkResponse(5, 0, k)
 		maxLen := 1
-		if thorough || k.codec == "none" {
+		if thorough || k.sets&setM0 != 0 {
 			maxLen = 2
 		}
 		for cut := 0; cut <= len(resp.data); cut++ {
@@ -936,7 +979,7 @@ func main() {
 		}
 	}
 	if !thorough {
-		r.Set("appended_two_byte_strings", "uncompressed single-unit kinds only (thorough: all)")
+		r.Set("appended_two_byte_strings", "single-unit kinds of the triples catalogue only (thorough: all)")
 	}
 	runJobs(r, "sweep2_appended_bytes", jobs, deadline)
 
